@@ -1,9 +1,14 @@
+import BadgerModel.Driver.AuxEng
 import BadgerModel.Driver.Loop
-/-! `bmd_aux <engine>`: line-protocol driver (see CONVENTIONS.md). -/
+/-! `bmd_aux <engine>`: line-protocol driver (see CONVENTIONS.md). Engines: `manifest`
+(stateful), `bloom` (stateless), `trie` (stateful). -/
 open Badger.Driver
 
 def main (args : List String) : IO UInt32 := do
   let stdin ← IO.getStdin
   let stdout ← IO.getStdout
   match args with
-  | _ => IO.eprintln "usage: bmd_aux <engine>"; return 2
+  | ["manifest"] => statefulLoop stdin stdout manifestStep {}; return 0
+  | ["bloom"] => statelessLoop stdin stdout bloomStep; return 0
+  | ["trie"] => statefulLoop stdin stdout trieStep {}; return 0
+  | _ => IO.eprintln "usage: bmd_aux <manifest|bloom|trie>"; return 2
